@@ -60,7 +60,7 @@ theorem mainStep_inv7 {c : Ctl.State (Load.State τ) τ} {W : List Nat} {k : Nat
   | collect =>
     simp only [hph] at hm
     cases p with
-    | collect errs garbage =>
+    | collect errs garbage intr sf0 =>
       simp only at hm
       have hfin : ∀ m ∈ ([WMsg.ignored] ++ errs.map (fun (e : String × Bool) => WMsg.ev (Ctl.Event.collectreport (τ := τ) k e.1 e.2)) ++
             [WMsg.ev (Ctl.Event.collectionfinish k w.ids)]), isEnd m = false := by
